@@ -496,7 +496,7 @@ def streams(ctx):
                       "generator without the range_clean restriction: every difference must be a listed shape"))
     out.append(_sweep("sweep-generated-pep695", gp, "m", "programs with PEP 695 forms: structure and extent rules only "
                       "(no CPython positions exist)", with_ref=False))
-    files = refsweep.stdlib("m", ranges=True, limit=(500 if q else None), rng=ctx.rng("stdlib"))
+    files = refsweep.stdlib("m", ranges=True, limit=(300 if q else None), rng=ctx.rng("stdlib"))
     out.append(_sweep("sweep-stdlib-module", [(s, None, r) for _, s, r in files], "m",
                       f"{len(files)} CPython stdlib files", kind="corpus"))
     return out
